@@ -1011,11 +1011,10 @@ class VectorDecompositionSq(Unit):
         res = out.value
         calls = getattr(ctx.interp, "c15_csq_calls", [])
         ok = isinstance(res, tuple) and len(res) == 2 and all(isinstance(x, Ref) and x.kind == "df" for x in res) and len(calls) >= 1
-        want_order = [f"q{c}" for c in range(d)] + ["q", "Sq"] + [f"FFT{c}" for c in range(d)] + [f"T_FFT{c}" for c in range(d)] + ["Sq_T"] \
-            + [f"L_FFT{c}" for c in range(d)] + ["Sq_L"]
+        want_order = _vf_order(d)       # (the same column lists are what the callee contract used by vector_fft_corr returns: FrameTables)
         if ok:
             fr, av = PM.df_content(res[0]), PM.df_content(res[1])
-            ok = fr["order"] == want_order and A.dim_eq_syntactic(fr["n"], Q) and av["order"] == ["q", "Sq", "Sq_T", "Sq_L"]
+            ok = fr["order"] == want_order and A.dim_eq_syntactic(fr["n"], Q) and av["order"] == AVE_COLS
         yield "shape:frames-and-columns", bool(ok)
         if not ok:
             return
